@@ -152,6 +152,7 @@ var templateProps = map[string][]string{
 	"TestGovcReplayBuiltBlockIndependent": {"C08"},
 	"TestGovcReplayNextKeyFromSource": {"C20"},
 	"TestGovcReplayCloneLimits":       {"C11"},
+	"TestGovcReplayDateLiterals":      {"C14"},
 	"TestGovcReplaySharedCapacity":    {"C08", "C19"},
 	"TestGovcReplayShortSecret":       {"C10"},
 	"TestGovcReplaySiblings":          {"C08", "C19"},
